@@ -74,6 +74,14 @@ type ArrayV struct {
 
 func (s ArrayV) Type() types.Type { return s.Ty }
 
+// FixedArrV: value of a small fixed-size array whose elements are not scalars (e.g. [2]struct): one Val per element.
+type FixedArrV struct {
+	E  []Val
+	Ty types.Type
+}
+
+func (s FixedArrV) Type() types.Type { return s.Ty }
+
 type TupleV struct {
 	E  []Val
 	Ty types.Type
